@@ -6,6 +6,7 @@ import (
 	"errors"
 	"fmt"
 	"io"
+	"strings"
 
 	"gosrc.io/xmpp/stanza"
 )
@@ -95,9 +96,11 @@ func authPlain(socket io.ReadWriter, decoder *xml.Decoder, mech string, user str
 }
 
 // isSupportedMech returns true if the mechanism is supported in the provided list.
+// A mechanism name is an xs:NMTOKEN (RFC 6120, appendix A.4): white space around it in the character data of
+// <mechanism/> (a server that writes its features indented) is not part of the name.
 func isSupportedMech(mech string, mechanisms []string) bool {
 	for _, m := range mechanisms {
-		if mech == m {
+		if mech == strings.Trim(m, " \t\r\n") {
 			return true
 		}
 	}
